@@ -89,7 +89,7 @@ def case(job):
             ev["values"] = dict(remote=glue.cp("origin"))
         ev["dbg"] = "%s %s argv=%r | commit tmpl(%s)=%r tag tmpl(%s)=%r files=%r" % (tool, e[1], argv, "cli" if cli_c else "cfg", tc, "cli" if cli_t else "cfg", tt, names)
         evs.append(ev)
-    facts = dict(seed=seed, tool=tool, exit=r.exit, exc=r.exc or "", names=names, added=sorted(added), tc=tc, tt=tt, cli_c=cli_c, cli_t=cli_t, light=light,
+    facts = dict(unknown_cmds=[e[2] for e in raw if e[0] == "cmd" and e[1] == "unknown"], seed=seed, tool=tool, exit=r.exit, exc=r.exc or "", names=names, added=sorted(added), tc=tc, tt=tt, cli_c=cli_c, cli_t=cli_t, light=light,
                  n_cmds=len(evs), quote=any(q in (tc + tt + "".join(names)) for q in "'\"\\"))
     return evs, facts
 
@@ -122,6 +122,8 @@ def run(ctx):
         ctx.violation(dict(clause=f["clause"], command=e["name"], tool=e["tool"]), case=dict(what=e["dbg"]), expected=f["detail"][:300])
     crashed = 0
     for _evs, f in results:
+        if f.get("unknown_cmds"):
+            ctx.violation(dict(clause="argv:unknown-vcs-command"), case=f)
         complete = f["exit"] == 0
         if f["exc"] and "SystemExit" not in f["exc"]:
             crashed += 1
